@@ -41,6 +41,10 @@ Inductive ract := RAnnouncerNow | RSoonSubscriberNoop | RSoonDiscovery | LSoonSu
 Inductive sdact := SAssignSession | SBuildSend.
 Inductive pact := PSubscriber | PAnnouncer | PDiscovery.
 
+(* announce_service / stop_announce_service: start the instance when the announcer runs, list it; remove it from the list
+   (list.remove raises ValueError when it is not there), stop it when asked to and the announcer runs *)
+Inductive aact := AStartInstance | AAppend | ARaiseValueError | ARemove | AStopInstance.
+
 (* what SimpleService.message_received answers: nothing, an error with a return code, the positive response *)
 Require Import Coq.NArith.BinNat.
 Inductive greply := GNoReply | GError (rc : N) | GPositive.
